@@ -22,6 +22,7 @@ EXPLANATION = (
     '(size >= max_length at the loop) and the constructor guards; obligations that cannot be proved are reported. No statement of next_cut / key writes a member. '
     'Python adapter (ast + CFG): the yielded prefix is exactly the prefix deleted from the carry-over buffer, each piece is appended exactly once and before the '
     'iterator is advanced, the finality flag is "there is no next piece", a zero cut never reaches yield, __call__ keeps no state on self. Rules C10.R1-R5.'
+    ' Round 6: computed tail slices seq[-n:] are guarded against n == 0 on the path from the files to the chunker.'
 )
 NOT_DECIDED = 'bounds / alignment of the cut values and independence from the segmentation (functions of hash maxima and integer arithmetic on runtime sizes)'
 TRUSTED = ['the stub pybind11 header /verif/sa/stubs/pybind11/pybind11.h', "clang's AST", 'the prebuilt _replicat_adapters*.so corresponds to src/adapters.cpp (it cannot be rebuilt here: no pybind11 headers)']
